@@ -22,7 +22,7 @@ fn mk_verifier(payload: JMap<String, JValue>, fam: Fam) -> SDJWTVerifier {
         cb_get_issuer_key: Box::new(move |iss, h| {
             unsafe {
                 RESOLVER_CALLS += 1;
-                RESOLVER_ISS_OK = streq(iss, "i");
+                RESOLVER_ISS_OK = streq(iss, "i/");
                 RESOLVER_ALG = Some(h.alg);
             }
             DecodingKey::model(fam, RESOLVER_KEY)
@@ -39,14 +39,15 @@ fn mk_verifier(payload: JMap<String, JValue>, fam: Fam) -> SDJWTVerifier {
 
 fn unverified_payload() -> JMap<String, JValue> {
     let mut m = JMap::new();
-    put(&mut m, "iss", jstr("i"));
+    // an issuer identifier with a trailing slash: the resolver must be asked about exactly this string
+    put(&mut m, "iss", jstr("i/"));
     put(&mut m, "k", jstr("unverified"));
     m
 }
 
 fn vouched_claims(k: String) -> JMap<String, JValue> {
     let mut m = JMap::new();
-    put(&mut m, "iss", jstr("i"));
+    put(&mut m, "iss", jstr("i/"));
     put(&mut m, "exp", jnum(5000));
     put(&mut m, "k", JValue::String(k));
     m
@@ -67,6 +68,9 @@ fn finish(r: Result<()>) -> bool {
 fn c02_wrong_key_rejected() {
     let signer: u64 = kani::any();
     kani::assume(signer != RESOLVER_KEY);
+    // (a signature segment that does not even decode is the subject of c02_malformed_signature_rejected:
+    // there the primitive is never asked)
+    kani::assume(signer != jm::MALFORMED_SIGNATURE);
     jm::register(JWT, Header::new(Algorithm::ES256), vouched_claims("vv".to_string()), signer);
     jm::set_now(1000);
     jm::expect(0, false);
@@ -234,6 +238,23 @@ fn c02_cnf_taken_from_verified_claims() {
     let got = v._holder_public_key_payload.as_ref().and_then(|c| c.get("jwk")).and_then(|j| j.get("x")).and_then(|s| s.as_str());
     assert!(match got { Some(s) => s.len() == 1 && s.as_bytes()[0] == xb, None => false },
             "C02.h2 the confirmed holder key must be the one in the signature-verified payload");
+    kani::cover!(true, "end");
+    std::mem::forget(v);
+}
+
+/// signature segment that is not even base64url (decode() fails with a Base64 error before any
+/// comparison): rejected, and nothing — in particular not the unverified payload copy — is taken over
+#[kani::proof]
+#[kani::unwind(4)]
+#[kani::stub(alloc::fmt::format, fmt_stub)]
+fn c02_malformed_signature_rejected() {
+    jm::register(JWT, Header::new(Algorithm::ES256), vouched_claims("vv".to_string()), jm::MALFORMED_SIGNATURE);
+    jm::set_now(1000);
+    jm::expect(0, false);
+    let mut v = mk_verifier(unverified_payload(), Fam::Ec);
+    let ok = finish(v.verify_sd_jwt(Some("ES256".to_string())));
+    assert!(!ok, "C02.i1 a token whose signature is not decodable must be rejected");
+    assert!(v.sd_jwt_payload.is_empty() && v._holder_public_key_payload.is_none(), "C02.i2 no claims may be taken over from a rejected token");
     kani::cover!(true, "end");
     std::mem::forget(v);
 }
